@@ -127,7 +127,15 @@ def valid_bracket_atoms(text):
     from gbigsmiles.atom import Atom
 
     out = []
-    for m in set(_re.findall(r"\[[^\]]*\]", text)):
+    # every substring that starts at a '[' and runs to the next ']' (also the ones that overlap an earlier, unclosed '[': the scanner of a
+    # later token may start inside what a regular expression over the whole text takes for one group)
+    cands = set()
+    for i, c in enumerate(text):
+        if c == "[":
+            j = text.find("]", i)
+            if j >= 0:
+                cands.add(text[i:j + 1])
+    for m in cands:
         if m not in _valid_cache:
             try:
                 Atom(m)
